@@ -4,11 +4,14 @@ package sim
 // model together, with the comparison that every server-side property shares.
 
 import (
+	"encoding/hex"
 	"encoding/json"
 	"fmt"
 	"os"
 	"path/filepath"
+	"reflect"
 	"sort"
+	"strings"
 	"time"
 
 	"github.com/glowlabs-org/gca-backend/glow"
@@ -95,6 +98,7 @@ func (n *ServerNode) Check(rule, site string) *server.VerifSnap {
 	if err := n.Model.CompareSnap(s); err != nil {
 		n.W.Fail(rule, site, "%v", err)
 	}
+	n.W.NoteState(n.Model.Digest())
 	return s
 }
 
@@ -201,3 +205,60 @@ func (n *ServerNode) ReadFile(name string) []byte {
 }
 
 func sortStrings(s []string) { sort.Strings(s) }
+
+// ReportMigrationPeriod is the period of the rotation loop in this build.
+var ReportMigrationPeriod = server.ReportMigrationFrequency
+
+const msec = time.Millisecond
+
+func errorf(format string, a ...interface{}) error { return fmt.Errorf(format, a...) }
+
+// GetRecent fetches the recent-reports endpoint for a device key and returns
+// the per-slot power values.
+func (n *ServerNode) GetRecent(pub glow.PublicKey) (vals [4032]uint64, status int) {
+	res := n.Get("/api/v1/recent-reports?publicKey=" + hex.EncodeToString(pub[:]))
+	if res.Status != 200 {
+		return vals, res.Status
+	}
+	var rr struct {
+		Reports []struct {
+			ShortID     uint32
+			Timeslot    uint32
+			PowerOutput uint64
+		}
+	}
+	if err := json.Unmarshal(res.Body, &rr); err != nil || len(rr.Reports) != 4032 {
+		n.W.Fail(n.W.Prop+".decode", "recent-reports", "reply does not decode (%v, %d reports)", err, len(rr.Reports))
+	}
+	for i, r := range rr.Reports {
+		vals[i] = r.PowerOutput
+	}
+	return vals, 200
+}
+
+// snapDiff names the first fields in which two snapshots differ.
+func snapDiff(a, b *server.VerifSnap) string {
+	var d []string
+	add := func(name string, x, y interface{}) {
+		if !reflect.DeepEqual(x, y) {
+			d = append(d, name)
+		}
+	}
+	add("offset", a.Offset, b.Offset)
+	add("gca-key", a.GCAKey, b.GCAKey)
+	add("gca-available", a.GCAAvailable, b.GCAAvailable)
+	add("equipment", a.Equipment, b.Equipment)
+	add("public-key-index", a.ShortIDs, b.ShortIDs)
+	add("bans", a.Bans, b.Bans)
+	add("slot-records", a.Reports, b.Reports)
+	add("impact-rates", a.Rates, b.Rates)
+	add("recent-reports", a.Recent, b.Recent)
+	add("recent-authorizations", a.RecentAuths, b.RecentAuths)
+	add("archived-weeks", a.HistoryHashes, b.HistoryHashes)
+	add("server-list", a.Servers, b.Servers)
+	add("migrations", a.Migrations, b.Migrations)
+	if len(d) == 0 {
+		return "no difference in the listed fields"
+	}
+	return "differs in " + strings.Join(d, ", ")
+}
